@@ -1,5 +1,6 @@
-/- C36 — property theorems (proved ones) and the goals left to the exhaustive tie (`*_goal : Prop`). -/
+/- C36 — property theorems (all proved; the only `def … : Prop` left is `waititer_full`, refuted by `waititer_refuted`). -/
 import TornadoModel.C36.LemmasTimeout
+import TornadoModel.C36.InvWaitOut
 namespace TornadoModel.C36
 
 /-! ### chain_future -/
@@ -98,21 +99,81 @@ example : (Multi.callback 0 ⟨[some (.result 1)], [0], [0], [0], none, 0, []⟩
 theorem multi_out_stable (s : Multi.S) (ops : List Multi.Op) (x : Multi.MOut) (h : s.out = some x) :
     (Multi.run s ops).out = some x := Multi.out_stable_run ops s x h
 
-/-- goals decided by the exhaustive tie only (≤ 4 inputs × 3 outcomes × all orders × already-done × tick placements) -/
-def multi_settles_goal : Prop :=
+/-- for every children list (duplicates, out-of-range indices), every initial state and every schedule: once all
+    children are done and the loop is idle the output holds exactly the specified outcome — the results in input
+    order, or the exception of the first child in order that failed (cancelled = CancelledError).
+    (Reachability invariant `Multi.Inv`: `unfinished_children` shrinks exactly by the children whose callback
+    ran; a pending child is listened to; a done unfinished child has its callback in the ready queue.) -/
+theorem multi_outcome :
   ∀ (st : List FState) (ch : List Nat) (ops : List Multi.Op), (∀ f ∈ ch, f < st.length) →
     let s := Multi.run (Multi.init st ch) ops
-    (∀ f ∈ ch, get s.st f ≠ none) → s.ready = [] → s.out ≠ none
+    (∀ f ∈ ch, get s.st f ≠ none) → s.ready = [] → s.out = some (Spec.multi (ch.filterMap (get s.st))) := by
+  intro st ch ops _ s hd hr
+  exact Multi.run_outcome st ch ops hd hr
 
-def multi_outcome_goal : Prop :=
-  ∀ (st : List FState) (ch : List Nat) (ops : List Multi.Op), (∀ f ∈ ch, f < st.length) →
-    let s := Multi.run (Multi.init st ch) ops
-    (∀ f ∈ ch, get s.st f ≠ none) → s.ready = [] → s.out = some (Spec.multi (ch.filterMap (get s.st)))
+example : (∀ f ∈ [0, 1, 0], f < [some (Outcome.result 5), none].length) ∧
+    (let s := Multi.run (Multi.init [some (.result 5), none] [0, 1, 0]) [.soon 1 .cancelled, .tick, .tick]
+     (∀ f ∈ [0, 1, 0], get s.st f ≠ none) ∧ s.ready = [] ∧ s.out = some (.exc cancelledErr)) := by decide
 
-def multi_not_early_goal : Prop :=
+/-- never left pending: all children done and the loop idle ⇒ the output is settled -/
+theorem multi_settles :
   ∀ (st : List FState) (ch : List Nat) (ops : List Multi.Op), (∀ f ∈ ch, f < st.length) →
     let s := Multi.run (Multi.init st ch) ops
-    s.out ≠ none → ∀ f ∈ ch, get s.st f ≠ none
+    (∀ f ∈ ch, get s.st f ≠ none) → s.ready = [] → s.out ≠ none := by
+  intro st ch ops hlt s hd hr
+  have := multi_outcome st ch ops hlt hd hr
+  simp only [s] at this ⊢
+  rw [this]; simp
+
+example : (let s := Multi.run (Multi.init [none, none] [0, 1]) [.set 1 (.result 2), .set 0 (.result 1), .tick]
+    (∀ f ∈ [0, 1], get s.st f ≠ none) ∧ s.ready = [] ∧ s.out = some (.vals [1, 2])) := by decide
+
+/-- never settled early: whenever the output is settled, every child is done (at construction or later) -/
+theorem multi_not_early :
+  ∀ (st : List FState) (ch : List Nat) (ops : List Multi.Op), (∀ f ∈ ch, f < st.length) →
+    let s := Multi.run (Multi.init st ch) ops
+    s.out ≠ none → ∀ f ∈ ch, get s.st f ≠ none := by
+  intro st ch ops _ s ho
+  obtain ⟨hinv, hch⟩ := Multi.reach st ch ops
+  cases hx : s.out with
+  | none => exact absurd hx ho
+  | some x =>
+    have := (hinv.v x hx).1
+    rw [hch] at this
+    exact this
+
+example : (Multi.run (Multi.init [none, none] [0, 1]) [.set 0 (.exc 7), .tick]).out = none ∧
+    (Multi.run (Multi.init [none, none] [0, 1]) [.set 0 (.exc 7), .tick, .set 1 (.result 1), .tick]).out
+      = some (.exc 7) := by decide
+
+/-- the settled output is the specified one at every moment of every schedule (not only when the loop is idle) -/
+theorem multi_out_correct (st : List FState) (ch : List Nat) (ops : List Multi.Op) (x : Multi.MOut) :
+    let s := Multi.run (Multi.init st ch) ops
+    s.out = some x → x = Spec.multi (ch.filterMap (get s.st)) := by
+  intro s hx
+  obtain ⟨hinv, hch⟩ := Multi.reach st ch ops
+  have := (hinv.v x hx).2
+  rw [hch] at this
+  exact this
+
+example : (Multi.run (Multi.init [none] [0, 0]) [.set 0 (.result 3), .tick]).out = some (.vals [3, 3]) := by decide
+
+/-- the loop always drains: whatever is queued, after two iterations nothing is ready (a callback schedules
+    nothing, a `call_soon`ed settle only schedules callbacks) … -/
+theorem multi_drains (s : Multi.S) : (Multi.run s [.tick, .tick]).ready = [] := Multi.tick_tick_idle s
+
+/-- … hence `multi` is never pending for ever: from any reachable state in which all children are done, two loop
+    iterations later the output is settled with the specified outcome -/
+theorem multi_never_pending (st : List FState) (ch : List Nat) (ops : List Multi.Op) :
+    let s := Multi.run (Multi.init st ch) ops
+    (∀ f ∈ ch, get s.st f ≠ none) →
+      (Multi.run s [.tick, .tick]).out = some (Spec.multi (ch.filterMap (get s.st))) := by
+  intro s hd
+  exact Multi.never_pending_aux st ch ops hd
+
+example : (let s := Multi.run (Multi.init [none, none] [0, 1, 1]) [.soon 0 (.result 4), .set 1 (.result 9), .tick]
+    (∀ f ∈ [0, 1, 1], get s.st f ≠ none) ∧ s.out = none ∧
+      (Multi.run s [.tick, .tick]).out = some (.vals [4, 9, 9])) := by decide
 
 /-! ### with_timeout -/
 
@@ -178,12 +239,104 @@ theorem waititer_refuted : ¬ waititer_full := by
   have := (h [none] [0, 0] [.next, .set 0 (.result 1), .tick, .next, .next] (by decide)).2
   exact this (by decide)
 
-/-- with distinct arguments (tie only): no KeyError, yields are a prefix of the completion order, each with the
-    index of its argument and the outcome of its future -/
-def waititer_partial_goal : Prop :=
+/-- with distinct arguments, for every initial state and every schedule (settles, `call_soon`s, loop iterations,
+    `next()` calls in any order): no `KeyError`, the yields are exactly a prefix of the completion order, no input
+    completes (hence is yielded) twice, and each yield carries the index of its argument.
+    (Reachability invariant `Wait.Inv`: scheduling part — every argument is still to register, or pending and
+    listened to, or has its callback in the ready queue exactly once, or has completed — and iterator part —
+    `compl = yielded ++ _finished`, `_unfinished` maps exactly the not-yet-yielded arguments to their index.) -/
+theorem waititer_partial :
   ∀ (st : List FState) (args : List Nat) (ops : List Wait.Op), args.Nodup → (∀ f ∈ args, f < st.length) →
     let s := Wait.run (Wait.init st args) ops
     s.cbErrs = 0 ∧ Wait.NextOut.keyError ∉ s.outs ∧ (s.yielded.map (·.1)) <+: s.compl ∧ s.compl.Nodup ∧
-    (∀ p ∈ s.yielded, Spec.indexOf args p.1 = some p.2)
+    (∀ p ∈ s.yielded, Spec.indexOf args p.1 = some p.2) := by
+  intro st args ops hnd _ s
+  have h := Wait.reach st args ops hnd
+  refine ⟨h.iter.w6.1, h.iter.w6.2, ?_, h.sched.cnd, ?_⟩
+  · rw [h.iter.w1]; exact List.prefix_append _ _
+  · have := h.iter.w3'
+    rw [h.hargs] at this
+    exact this
+
+example : [1, 0].Nodup ∧ (∀ f ∈ [1, 0], f < [none, some (Outcome.exc 5)].length) ∧
+    (let s := Wait.run (Wait.init [none, some (.exc 5)] [1, 0]) [.next, .set 0 .cancelled, .next, .tick]
+     s.yielded = [(1, 0), (0, 1)] ∧ s.compl = [1, 0] ∧
+     s.outs = [.fut (some (.exc 5)), .fut (some .cancelled)]) := by decide
+
+/-- every input is yielded exactly once: when the iterator reports `done()`, the yielded futures are the
+    arguments, each exactly once (distinct arguments) -/
+theorem waititer_all_yielded (st : List FState) (args : List Nat) (ops : List Wait.Op) (hnd : args.Nodup) :
+    let s := Wait.run (Wait.init st args) ops
+    Wait.isDone s = true → (s.yielded.map (·.1)).Nodup ∧ ∀ f, f ∈ s.yielded.map (·.1) ↔ f ∈ args := by
+  intro s hdone
+  have h := Wait.reach st args ops hnd
+  refine ⟨?_, ?_⟩
+  · have := h.sched.cnd
+    rw [h.iter.w1] at this
+    exact (List.nodup_append.1 this).1
+  · have := Wait.complete_aux _ h.sched h.iter hdone
+    rw [h.hargs] at this
+    exact this
+
+example : (let s := Wait.run (Wait.init [none, none] [0, 1]) [.set 1 (.result 2), .set 0 (.result 1), .tick, .next, .next]
+    Wait.isDone s = true ∧ s.yielded = [(1, 1), (0, 0)]) := by decide
+
+/-- never pending for ever: once every argument is done and the loop is idle, the future returned by the last
+    `next()` has resolved (distinct arguments) … -/
+theorem waititer_never_pending (st : List FState) (args : List Nat) (ops : List Wait.Op) (hnd : args.Nodup) :
+    let s := Wait.run (Wait.init st args) ops
+    (∀ f ∈ args, get s.st f ≠ none) → s.ready = [] → s.outs.getLast? ≠ some (.fut none) := by
+  intro s hd hr
+  have h := Wait.reach st args ops hnd
+  exact Wait.never_pending_aux _ h.sched h.iter (by rw [h.hargs]; exact hd) hr
+
+example : (let s := Wait.run (Wait.init [none, none] [0, 1]) [.next, .set 1 (.result 2), .set 0 .cancelled]
+    s.outs.getLast? = some (.fut none) ∧ (∀ f ∈ [0, 1], get s.st f ≠ none) ∧
+    (Wait.run s [.tick]).ready = [] ∧ (Wait.run s [.tick]).outs.getLast? = some (.fut (some (.result 2)))) := by decide
+
+/-- … and as long as the iterator is not `done()`, the next `next()` returns an already resolved future: the
+    oldest completed input not yet yielded, with its argument index and its outcome -/
+theorem waititer_next_yields (st : List FState) (args : List Nat) (ops : List Wait.Op) (hnd : args.Nodup) :
+    let s := Wait.run (Wait.init st args) ops
+    (∀ f ∈ args, get s.st f ≠ none) → s.ready = [] → Wait.isDone s = false →
+      ∃ f i rest, s.finished = f :: rest ∧ get s.st f ≠ none ∧ Spec.indexOf args f = some i ∧
+        (Wait.next s).yielded = s.yielded ++ [(f, i)] ∧ (Wait.next s).outs = s.outs ++ [.fut (get s.st f)] ∧
+        (Wait.next s).finished = rest := by
+  intro s hd hr hdone
+  have h := Wait.reach st args ops hnd
+  have := Wait.next_yields_aux _ h.sched h.iter (by rw [h.hargs]; exact hd) hr hdone
+  rw [h.hargs] at this
+  exact this
+
+example : (let s := Wait.run (Wait.init [some (.result 1), some (.exc 9)] [0, 1]) [.next]
+    (∀ f ∈ [0, 1], get s.st f ≠ none) ∧ s.ready = [] ∧ Wait.isDone s = false ∧
+    (Wait.next s).yielded = [(0, 0), (1, 1)]) := by decide
+
+/-- what the consumer sees (distinct arguments, every schedule): the futures handed out by the successive `next()`
+    calls are exactly one resolved future per yield, carrying the outcome (result / exception / cancellation) of
+    the yielded input, in yield order — plus one pending future while `next()` waits for a completion -/
+theorem waititer_outcomes (st : List FState) (args : List Nat) (ops : List Wait.Op) (hnd : args.Nodup) :
+    let s := Wait.run (Wait.init st args) ops
+    s.outs = s.yielded.map (fun p => Wait.NextOut.fut (get s.st p.1))
+              ++ (if Wait.runningPending s then [Wait.NextOut.fut none] else []) :=
+  Wait.reachO st args ops hnd
+
+/-- … so the (index, outcome) pairs delivered are `Spec.waitYields` of the yielded inputs, themselves a prefix of
+    the completion order (`waititer_partial`) -/
+theorem waititer_yields_spec (st : List FState) (args : List Nat) (ops : List Wait.Op) (hnd : args.Nodup) :
+    let s := Wait.run (Wait.init st args) ops
+    s.yielded.map (fun p => (some p.2, get s.st p.1)) = Spec.waitYields args (s.yielded.map (·.1)) (get s.st) := by
+  intro s
+  have h := Wait.reach st args ops hnd
+  simp only [Spec.waitYields, List.map_map]
+  apply List.map_congr_left
+  intro p hp
+  have := h.iter.w3' p hp
+  rw [h.hargs] at this
+  simp [this]
+
+example : (let s := Wait.run (Wait.init [none, none, none] [2, 0, 1]) [.next, .soon 1 (.exc 4), .set 0 .cancelled, .tick, .next, .tick, .next]
+    s.yielded = [(0, 1), (1, 2)] ∧ s.compl = [0, 1] ∧
+    s.outs = [.fut (some .cancelled), .fut (some (.exc 4)), .fut none] ∧ Wait.runningPending s = true) := by decide
 
 end TornadoModel.C36
